@@ -265,6 +265,13 @@ def check_c09(an):
             else:
                 an.add('C09', 'server-exception', f'{role} died: {tn}: {msg}\n{tb or ""}',
                        key=f'server-exception:{tn}')
+    if run.server_exc is None:
+        for role, op, obj in getattr(sim, 'killed_at_exit', ()):
+            if role == 'server' or role.startswith('pt:') or role.startswith('aux:'):
+                an.add('C09', 'thread-unfinished', f'Server.run() returned while its thread {role} '
+                                                   f'was still running (at {op} on {obj}): a daemon '
+                                                   f'thread, killed when the process exits',
+                       key='thread-unfinished')
     for pl in run.players:
         if getattr(pl, 'verdict', None) == 'seated' and not pl.got_end:
             an.add('C09', 'no-end', f'{pl.name} was never sent "End of session" '
